@@ -361,7 +361,7 @@ def _gmrf_factor_order(chk, repo):
     from .common import canon_fn
     from ..pattern import norm as pn
     gm = repo.cls("cuqi/distribution/_gmrf.py:GMRF")
-    init = repo.method(gm, "__init__")[1]
+    init = canon_fn(repo, gm, repo.method(gm, "__init__")[1], 2)       # helpers the constructor delegates the factorisation to are inlined
     defs = [s for s in ast.walk(init) if isinstance(s, ast.Assign) and path_of(s.targets[0]) == "self._chol"]
     sc = repo.func("cuqi/utilities/_utilities.py:sparse_cholesky")
     upper = any(isinstance(r, ast.Return) and isinstance(r.value, ast.Attribute) and r.value.attr == "T" for r in ast.walk(sc))
